@@ -44,8 +44,6 @@ ASSUMPTIONS = [
     '(binary_search_is_prefix_count)',
     'NumPy fancy indexing / broadcasting of the per-axis weight arrays is modelled as the tensor product over the mesh '
     '(validated by the correspondence on mesh inputs; proved equal to point-wise evaluation in Coq)',
-    'the Q instance executed by vm_compute and the R instance used in proofs are the same polymorphic term (Q2R '
-    'homomorphism not proved here)',
     'the callable-wrapping machinery (sampling_function, _make_dual_use_func, vectorize) is Python dispatch: the '
     'model only states the values the callable denotes at the grid points (validated, not proved)',
     'complex values: real and imaginary parts are interpolated separately (justified by '
